@@ -1492,6 +1492,11 @@ impl Zeroconf {
                     debug!("Exit command received, performing cleanup");
                     self.cleanup();
                     self.status = DaemonStatus::Shutdown;
+
+                    // Drop the commands still in the queue, so that the clients
+                    // waiting for their replies see the reply channels closed.
+                    while receiver.try_recv().is_ok() {}
+
                     return Some(command);
                 }
                 self.exec_command(command, false);
